@@ -82,6 +82,24 @@ pub fn drive(trace: &StreamTrace, variant: u8, prop: &str, obs: &mut dyn Observe
     Ok(out)
 }
 
+/// "Another connection served by the same thread": an unrelated scanner call
+/// between two calls of ours (rover variants V2 and V4). The library keeps no
+/// state between calls; if a change ever introduces some (a cache in a static
+/// or thread-local), these decoy calls make it visible to the per-step oracles.
+fn decoy(step: usize) {
+    const INCOMPLETE: [u8; 5] = [0xD3, 0x00, 0x10, 0x55, 0xD3];
+    const FRAME_THEN_D3: [u8; 10] = [0xD3, 0x00, 0x03, 0x3E, 0xD0, 0x00, 0x7A, 0x79, 0xFE, 0xD3];
+    const GARBAGE: [u8; 3] = [0x00, 0x01, 0x02];
+    let buf: &[u8] = match step % 3 {
+        0 => &INCOMPLETE,
+        1 => &FRAME_THEN_D3,
+        _ => &GARBAGE,
+    };
+    let _ = next_msg_frame(buf);
+    let mut it = MsgFrameIter::new(buf);
+    let _ = (&mut it).next();
+}
+
 fn breach(prop: &str, clause: &str, detail: String) -> Violation {
     // a scanner contract breach is a C05 matter whichever check saw it; checks
     // for other properties report it under their own id only when it is theirs
@@ -149,12 +167,14 @@ fn drive_v2(stream: &[u8], a: usize, bounds: &[usize], prop: &str, obs: &mut dyn
         obs.on_chunk(have, end - have);
         tail.extend_from_slice(&stream[have..end]);
         have = end;
+        decoy(out.scans as usize);
         let (c, _d) = scan_once(&tail, base, have, prop, obs, out)?;
         tail.drain(..c);
         base += c;
     }
     let mut guard = 0usize;
     loop {
+        decoy(out.scans as usize);
         let (c, d) = scan_once(&tail, base, have, prop, obs, out)?;
         tail.drain(..c);
         base += c;
@@ -223,6 +243,7 @@ fn drive_v4(stream: &[u8], a: usize, bounds: &[usize], prop: &str, obs: &mut dyn
         have = end;
         let mut guard = 0usize;
         loop {
+            decoy(out.scans as usize);
             let (c, d) = scan_once(&buf[start..], a + start, have, prop, obs, out)?;
             start += c;
             if !d {
